@@ -45,6 +45,9 @@ EXC_MAP = {
 }
 
 
+CONST_VALUES = {}   # coq constant name -> python int (for tuple indices given by named constants)
+
+
 class Fn:
     """Translation context for one function."""
 
@@ -56,6 +59,7 @@ class Fn:
         self.ret_type = ret_type
         self.consts = consts          # module/class constants: name -> (coq, type)
         self.funcs = {}               # callable source text -> (coq name, [arg types], ret type)
+        self.state = []               # coq names of modelled fields returned alongside the result
         self.fresh = 0
 
     # ------------------------------------------------------------ expressions
@@ -93,6 +97,11 @@ class Fn:
             if node.attr in self.consts and isinstance(node.value, ast.Name):
                 return self.consts[node.attr]
             fail(node, "unknown attribute (not in the function's fragment table)", self.fname)
+        if isinstance(node, ast.List):
+            parts = [self.expr(e) for e in node.elts]
+            for e, (_, t) in zip(node.elts, parts):
+                self.need(e, t, "bytes")
+            return ("(" + " ++ ".join([c for c, _ in parts] + ["[]"]) + ")", "chunks")
         if isinstance(node, ast.Tuple):
             parts = [self.expr(e) for e in node.elts]
             return ("(" + ", ".join(p[0] for p in parts) + ")", ("tuple", [p[1] for p in parts]))
@@ -262,7 +271,7 @@ class Fn:
             else:
                 c = self.expr(sl)
                 try:
-                    i = int(c[0].strip("()"))
+                    i = int(CONST_VALUES.get(c[0], c[0].strip("()")))
                 except ValueError:
                     fail(node, "tuple index is not a literal", self.fname)
             n = len(tb[1])
@@ -299,7 +308,7 @@ class Fn:
             width = {"!H": 2, "!Q": 8, "!I": 4, "!B": 1}.get(fmt)
             if width is None:
                 fail(node, "struct format outside the fragment (only big-endian !B !H !I !Q)", self.fname)
-            return (f"(be_encode {width} {c})", "bytes")
+            return (f"(be_encode {width}%nat {c})", "bytes")
         # struct.unpack(fmt, v)[0] is handled as a whole in subscript -> see env hook below
         if isinstance(f, ast.Attribute) and f.attr == "encode" and len(args) == 1 \
                 and isinstance(args[0], ast.Constant) and args[0].value == "latin-1" \
@@ -307,6 +316,37 @@ class Fn:
             c, t = self.expr(f.value.args[0])
             self.need(f.value.args[0], t, "Z")
             return (f"[{c}]", "bytes")
+        if fn == "any" and len(args) == 1 and isinstance(args[0], ast.GeneratorExp):
+            g = args[0]
+            if len(g.generators) != 1 or g.generators[0].ifs or not isinstance(g.generators[0].target, ast.Name) \
+                    or not isinstance(g.generators[0].iter, (ast.List, ast.Tuple)):
+                fail(node, "generator shape outside the fragment", self.fname)
+            var = g.generators[0].target.id
+            elems = [self.expr(e) for e in g.generators[0].iter.elts]
+            for e, (_, t) in zip(g.generators[0].iter.elts, elems):
+                self.need(e, t, "Z")
+            saved = self.locals.get(var)
+            self.locals[var] = "Z"
+            body = self.truth(g.elt)
+            if saved is None:
+                del self.locals[var]
+            else:
+                self.locals[var] = saved
+            lst = "[" + "; ".join(c for c, _ in elems) + "]"
+            return (f"(existsb (fun {self.pyname(var)} => {body}) {lst})", "bool")
+        if fn == "int.from_bytes" and len(args) == 2 and ast.unparse(args[1]) == "native_byteorder":
+            if sys.byteorder != "little":
+                fail(node, "native byte order is not little-endian on this platform", self.fname)
+            c, t = self.expr(args[0])
+            self.need(args[0], t, "bytes")
+            return (f"(le_decode {c})", "Z")
+        if isinstance(f, ast.Attribute) and f.attr == "to_bytes" and len(args) == 2 \
+                and ast.unparse(args[1]) == "native_byteorder":
+            c, t = self.expr(f.value)
+            self.need(f.value, t, "Z")
+            n, tn = self.expr(args[0])
+            self.need(args[0], tn, "Z")
+            return (f"(le_encode {n} {c})", "bytes")
         if fn in self.funcs:
             coqname, argtypes, rett = self.funcs[fn]
             if len(args) != len(argtypes):
@@ -321,6 +361,8 @@ class Fn:
 
     # ------------------------------------------------------------- statements
     def ret(self, coq):
+        if self.state:
+            coq = "(" + ", ".join([coq] + [n for n in self.state]) + ")"
         return f"(Ok {coq})" if self.raising else coq
 
     def block(self, stmts, k):
@@ -340,6 +382,8 @@ class Fn:
                 return self.ret("tt")
             if self.ret_type == "bool":
                 return self.ret(self.truth(s.value))
+            if self.ret_type == "Z" and isinstance(s.value, ast.Constant) and isinstance(s.value.value, bool):
+                return self.ret("1" if s.value.value else "0")
             c, t = self.expr(s.value)
             if t != self.ret_type:
                 fail(s, f"returns {t}, declared {self.ret_type}", self.fname)
@@ -362,9 +406,19 @@ class Fn:
             fake = ast.BinOp(left=s.target, op=s.op, right=s.value)
             ast.copy_location(fake, s)
             return self.assign(s, s.target, fake, cont)
+        if isinstance(s, ast.Expr) and isinstance(s.value, ast.Call) and isinstance(s.value.func, ast.Attribute) \
+                and s.value.func.attr == "append" and len(s.value.args) == 1 \
+                and ast.unparse(s.value.func.value) in self.env \
+                and self.env[ast.unparse(s.value.func.value)][1] == "chunks":
+            name, _ = self.env[ast.unparse(s.value.func.value)]
+            c, t = self.expr(s.value.args[0])
+            self.need(s.value.args[0], t, "bytes")
+            return f"(let {name} := ({name} ++ {c}) in\n {cont()})"
         if isinstance(s, ast.If):
             saved = dict(self.locals), dict(self.env)
             test = self.truth(s.test)
+            if test == "false":      # a branch that is dead in the typed model (isinstance(.., str))
+                return self.block(s.orelse + rest, k)
             a = self.block(s.body + rest, k)
             self.locals, self.env = dict(saved[0]), dict(saved[1])
             b = self.block(s.orelse + rest, k)
@@ -397,7 +451,7 @@ class Fn:
             # assignment to a modelled field (self.x = e): rebind the field variable
             name, tfield = self.env[ast.unparse(target)]
             c, t = self.expr(value)
-            if t != tfield:
+            if t != tfield and not (tfield == "chunks" and t == "bytes"):
                 fail(s, f"field of type {tfield} assigned a {t}", self.fname)
             return f"(let {name} := {c} in\n {cont()})"
         fail(s, "assignment target outside the fragment", self.fname)
@@ -499,7 +553,7 @@ def coq_type(t):
         return "Z"
     if t == "bool":
         return "bool"
-    if t == "bytes" or t == "listZ":
+    if t in ("bytes", "listZ", "chunks"):
         return "list Z"
     if t == "unit":
         return "unit"
@@ -511,15 +565,16 @@ def coq_type(t):
 
 
 def translate_function(src, fdef, coqname, params, ret_type, raising, env, consts, funcs=None,
-                       skip_params=("self",)):
+                       skip_params=("self",), state=None, end_value=None, stmts=None, check_params=True):
     """Straight-line / branching function -> Definition.
     params: list of (python name or None, coq name, type) in Coq argument order;
     a python name binds the corresponding parameter of the def."""
     fn = Fn(f"{src.rel}:{fdef.name}", env, {}, raising, ret_type, consts)
     fn.funcs = dict(funcs or {})
+    fn.state = list(state or [])
     pyparams = [a.arg for a in fdef.args.args if a.arg not in skip_params]
     declared = [p for p, _, _ in params if p is not None]
-    if sorted(pyparams) != sorted(declared):
+    if check_params and sorted(pyparams) != sorted(declared):
         raise TranslationError(f"{src.rel}:{fdef.lineno}: parameters of {fdef.name} are {pyparams}, "
                                f"the fragment table expects {declared}")
     for p, c, t in params:
@@ -528,14 +583,18 @@ def translate_function(src, fdef, coqname, params, ret_type, raising, env, const
             if fn.pyname(p) != c:
                 fn.env[p] = (c, t)
     def off_end():
+        if end_value is not None:
+            return fn.ret(end_value)
         if ret_type != "unit":
             raise TranslationError(f"{src.rel}:{fdef.lineno}: {fdef.name} can fall off its end but has a result")
         return fn.ret("tt")
-    body = fn.block(fdef.body, off_end)
+    body = fn.block(fdef.body if stmts is None else stmts, off_end)
     args = " ".join(f"({c} : {coq_type(t)})" for _, c, t in params)
     rt = coq_type(ret_type)
+    if fn.state:
+        rt = "(" + " * ".join([rt] + ["list Z"] * len(fn.state)) + ")"
     if raising:
-        rt = f"res {rt}"
+        rt = f"res ({rt})"
     return f"Definition {coqname} {args} : {rt} :=\n {body}.\n"
 
 
@@ -587,3 +646,81 @@ def translate_loop_function(src, fdef, coqname, params, ret_type, raising, env, 
     init = " ".join(f"({c})" for _, c, _ in carried)
     out += f"Definition {coqname} {args} : {rt} := {coqname}_loop {it} {init}.\n"
     return out
+
+
+def contains_call(node, text):
+    for n in ast.walk(node):
+        if isinstance(n, ast.Call) and ast.unparse(n.func) == text:
+            return n
+    return None
+
+
+def translate_need(src, fdef, coqname, params, env, consts, calltext="self.recv_strict"):
+    """How many bytes does this function request from `calltext(<n>)`, as a function of its
+    (already parsed) inputs?  Statements before the call are translated normally; the first
+    statement containing the call yields its argument; no call on a path yields 0."""
+    fn = Fn(f"{src.rel}:{fdef.name}[need]", env, {}, False, "Z", consts)
+    for p, c, t in params:
+        if p is not None:
+            fn.locals[p] = t
+
+    def need_expr(e):
+        if isinstance(e, ast.IfExp):
+            return f"(if {fn.truth(e.test)} then {need_expr(e.body)} else {need_expr(e.orelse)})"
+        call = contains_call(e, calltext)
+        if call is None:
+            return "0"
+        if len(call.args) != 1:
+            fail(call, "request call shape", fn.fname)
+        c, t = fn.expr(call.args[0])
+        fn.need(call.args[0], t, "Z")
+        return c
+
+    def block(stmts):
+        if not stmts:
+            return "0"
+        s, rest = stmts[0], stmts[1:]
+        if isinstance(s, ast.Expr) and isinstance(s.value, ast.Constant):
+            return block(rest)
+        if isinstance(s, ast.If):
+            if contains_call(s.test, calltext):
+                fail(s, "request inside a condition", fn.fname)
+            saved = dict(fn.locals), dict(fn.env)
+            a = block(s.body + rest)
+            fn.locals, fn.env = dict(saved[0]), dict(saved[1])
+            b = block(s.orelse + rest)
+            fn.locals, fn.env = saved
+            return f"(if {fn.truth(s.test)} then {a} else {b})"
+        if contains_call(s, calltext):
+            value = s.value if isinstance(s, (ast.Assign, ast.AnnAssign, ast.Expr, ast.Return)) else None
+            if value is None:
+                fail(s, "request in an unsupported statement", fn.fname)
+            return need_expr(value)
+        if isinstance(s, (ast.Assign, ast.AnnAssign)):
+            tgt = s.targets[0] if isinstance(s, ast.Assign) else s.target
+            if isinstance(tgt, ast.Attribute) and ast.unparse(tgt) not in fn.env:
+                return block(rest)      # a field write that cannot influence the amount requested
+            return fn.assign(s, tgt, s.value, lambda: block(rest))
+        fail(s, "statement outside the fragment", fn.fname)
+
+    body = block(fdef.body)
+    args = " ".join(f"({c} : {coq_type(t)})" for _, c, t in params)
+    return f"Definition {coqname} {args} : Z :=\n {body}.\n"
+
+
+def translate_expr(src, node, coqname, params, ret_type, env, consts, funcs=None):
+    fn = Fn(f"{src.rel}:{coqname}", env, {}, False, ret_type, consts)
+    fn.funcs = dict(funcs or {})
+    for p, c, t in params:
+        if p is not None:
+            fn.locals[p] = t
+            if fn.pyname(p) != c:
+                fn.env[p] = (c, t)
+    if ret_type == "bool":
+        c = fn.truth(node)
+    else:
+        c, t = fn.expr(node)
+        if t != ret_type:
+            fail(node, f"expression of type {t}, expected {ret_type}", fn.fname)
+    args = " ".join(f"({c_} : {coq_type(t)})" for _, c_, t in params)
+    return f"Definition {coqname} {args} : {coq_type(ret_type)} :=\n {c}.\n"
